@@ -4,6 +4,7 @@ import (
 	"fmt"
 	"go/token"
 	"go/types"
+	"strings"
 
 	"golang.org/x/tools/go/ssa"
 )
@@ -151,6 +152,14 @@ func (f *Frame) enterBlock(b *ssa.BasicBlock) *cursor {
 	}
 	// 2. havoc
 	hst := st.clone()
+	if li.privAll {
+		pfx := "L." + f.pfx + sanitize(f.fn.Name()) + "."
+		for fam, srt := range e.famSort {
+			if strings.HasPrefix(fam, pfx) {
+				li.fams[fam] = srt
+			}
+		}
+	}
 	e.havoc(hst, li.fams, li.all)
 	for _, phi := range phis {
 		f.freshFor(phi, hst)
@@ -293,6 +302,29 @@ func (f *Frame) exec(c *cursor, in ssa.Instruction) bool {
 		return false
 	case *ssa.Alloc:
 		et := x.Type().Underlying().(*types.Pointer).Elem()
+		if f.privateAlloc(x) {
+			// a local whose address never escapes: its own state variable(s), untouched by calls
+			base := "L." + f.pfx + sanitize(f.fn.Name()) + "." + x.Name()
+			if stt, ok := et.Underlying().(*types.Struct); ok {
+				if f.privStruct == nil {
+					f.privStruct = map[ssa.Value]string{}
+				}
+				f.privStruct[x] = base
+				for i := 0; i < stt.NumFields(); i++ {
+					fs := e.structFieldSort(et, i)
+					fam := base + "." + sanitize(stt.Field(i).Name())
+					e.famSort[fam] = fs
+					st.heap[fam] = e.U.zeroOf(stt.Field(i).Type(), fs)
+				}
+				f.vals[x] = intLit(-7) // never dereferenced as a heap reference
+				return false
+			}
+			s := e.U.sortOf(et, false)
+			e.famSort[base] = s
+			st.heap[base] = e.U.zeroOf(et, s)
+			f.lvals[x] = &LVal{fam: base, famSort: s, kind: 2, typ: et}
+			return false
+		}
 		r := f.freshRef(f.name(x), st)
 		f.vals[x] = r
 		f.zeroInit(r, et, st)
@@ -474,6 +506,15 @@ func (f *Frame) execStore(c *cursor, x *ssa.Store) {
 	e := f.e
 	st := c.st
 	vt := x.Val.Type()
+	if base, ok := f.privBase(x.Addr); ok {
+		stt := vt.Underlying().(*types.Struct)
+		d := e.U.structDT(vt)
+		v := f.val(x.Val)
+		for i := 0; i < stt.NumFields(); i++ {
+			st.heap[base+"."+sanitize(stt.Field(i).Name())] = e.define("l", mk(d.Sorts[i], d.Fields[i], v))
+		}
+		return
+	}
 	// struct value stored through a struct pointer: explode
 	if _, ok := vt.Underlying().(*types.Struct); ok && opaqueStruct(vt) == "" {
 		if _, isLv := f.lvals[x.Addr]; !isLv {
@@ -532,6 +573,21 @@ func (f *Frame) execUnOp(c *cursor, x *ssa.UnOp) {
 		et := pt.Elem()
 		if g, ok := x.X.(*ssa.Global); ok {
 			f.setVal(x, f.loadGlobal(g, st))
+			return
+		}
+		if base, ok := f.privBase(x.X); ok {
+			stt := et.Underlying().(*types.Struct)
+			d := e.U.structDT(et)
+			var args []Term
+			for i := 0; i < stt.NumFields(); i++ {
+				fam := base + "." + sanitize(stt.Field(i).Name())
+				args = append(args, e.family(st, fam, d.Sorts[i]))
+			}
+			if len(args) == 0 {
+				f.setVal(x, Term{"(" + d.Ctor + " 0)", Sort(d.Name)})
+			} else {
+				f.setVal(x, mk(Sort(d.Name), d.Ctor, args...))
+			}
 			return
 		}
 		if _, isLv := f.lvals[x.X]; !isLv {
@@ -655,6 +711,11 @@ func (f *Frame) execFieldAddr(c *cursor, x *ssa.FieldAddr) {
 		nl.path = append(append([]pathSel{}, base.path...), pathSel{d, x.Field})
 		nl.typ = ft
 		f.lvals[x] = &nl
+		return
+	}
+	if base, ok := f.privBase(x.X); ok {
+		fs := e.structFieldSort(stT, x.Field)
+		f.lvals[x] = &LVal{fam: base + "." + sanitize(sstruct.Field(x.Field).Name()), famSort: fs, kind: 2, typ: ft}
 		return
 	}
 	ref := f.val(x.X)
@@ -1023,4 +1084,97 @@ func (f *Frame) invProps(inv *Clause) []string {
 		return inv.Props
 	}
 	return f.props
+}
+
+func (f *Frame) privBase(v ssa.Value) (string, bool) {
+	for fr := f; fr != nil; fr = fr.parent {
+		if b, ok := fr.privStruct[v]; ok {
+			return b, true
+		}
+	}
+	// free variables of closures bound to a private struct of the enclosing frame
+	if b, ok := f.privAlias[v]; ok {
+		return b, true
+	}
+	return "", false
+}
+
+// privateAlloc: the address of the allocation is used only for loads,
+// stores, field addressing and capture by closures that are themselves only
+// called or deferred in this function.
+func (f *Frame) privateAlloc(a *ssa.Alloc) bool {
+	et := a.Type().Underlying().(*types.Pointer).Elem()
+	if opaqueStruct(et) != "" {
+		return false
+	}
+	switch t := et.Underlying().(type) {
+	case *types.Array:
+		return false
+	case *types.Struct:
+		for i := 0; i < t.NumFields(); i++ {
+			ft := t.Field(i).Type()
+			if _, nested := ft.Underlying().(*types.Struct); nested {
+				return false
+			}
+		}
+	}
+	return addrPrivate(a, 0)
+}
+
+func addrPrivate(v ssa.Value, depth int) bool {
+	if depth > 3 || v.Referrers() == nil {
+		return false
+	}
+	for _, r := range *v.Referrers() {
+		switch x := r.(type) {
+		case *ssa.DebugRef:
+		case *ssa.UnOp:
+			if x.Op != token.MUL {
+				return false
+			}
+		case *ssa.Store:
+			if x.Val == v {
+				return false // the address itself is stored somewhere
+			}
+		case *ssa.FieldAddr:
+			if _, isStruct := x.Type().Underlying().(*types.Pointer).Elem().Underlying().(*types.Struct); isStruct {
+				return false
+			}
+			if !addrPrivate(x, depth+1) {
+				return false
+			}
+		case *ssa.MakeClosure:
+			// the closure may only be called or deferred directly
+			if x.Referrers() == nil {
+				return false
+			}
+			for _, cr := range *x.Referrers() {
+				switch y := cr.(type) {
+				case *ssa.DebugRef:
+				case *ssa.Call:
+					if y.Call.Value != x {
+						return false
+					}
+				case *ssa.Defer:
+					if y.Call.Value != x {
+						return false
+					}
+				default:
+					return false
+				}
+			}
+			// inside the closure the free variable must be private too
+			fn := x.Fn.(*ssa.Function)
+			for i, b := range x.Bindings {
+				if b == v {
+					if i >= len(fn.FreeVars) || !addrPrivate(fn.FreeVars[i], depth+1) {
+						return false
+					}
+				}
+			}
+		default:
+			return false
+		}
+	}
+	return true
 }
